@@ -90,13 +90,33 @@ def measure(job):
         out.append((c, np.linalg.norm(A - F) / nF, "fro"))
         for _ in range(2):
             x = rs.randn(*shape) + 1j * rs.randn(*shape)
-            out.append((c, np.linalg.norm((A - F) @ x.ravel()) / np.linalg.norm(F @ x.ravel()), "random x"))
+            # error of the output for a random image, relative to the size an output of the exact transform has for such an
+            # image (||F||_F ||x|| / sqrt(n)); dividing by ||F x|| of the particular x amplifies noise without bound for
+            # clustered coordinates, where F is nearly rank deficient (false-alarm log 13)
+            out.append((c, np.linalg.norm((A - F) @ x.ravel()) / (nF * np.linalg.norm(x) / np.sqrt(x.size)), "random x"))
         # adjoint: exact conjugate transpose, same scaling
         AH = dense_fn(lambda y: sp.nufft_adjoint(y, coord, oshape=shape, oversamp=os_, width=w), [npts], shape)
         out.append(("adjoint_exact", np.linalg.norm(AH - A.conj().T) / max(np.linalg.norm(A), 1e-300), "nufft_adjoint vs nufft^H (%s)" % c))
         out.append((c + "_gram", np.linalg.norm(AH @ A - G) / np.linalg.norm(G), "gram"))
         if not np.array_equal(coord, coord0):
             out.append(("purity", 1.0, "nufft/nufft_adjoint modified the coordinate array"))
+    # oversampling ratios BETWEEN the tabulated ones, called after them in the same process (the property quantifies over the
+    # whole interval [1.25, 2]; ratios that round to an oversampled grid already used must not reuse anything computed for the
+    # other ratio).  Accuracy improves with the ratio, so the bound of the next lower tabulated ratio applies.
+    for os2, lower in ((1.3, 1.25), (1.4, 1.25), (1.75, 1.5), (1.9, 1.5)):
+        for w in (4, 6):
+            if (lower, w) not in pairs:
+                continue
+            coord = pts.copy()
+            A2 = dense_fn(lambda x: sp.nufft(x, coord, oversamp=os2, width=w), shape, [npts])
+            out.append((cls_name(lower, w), np.linalg.norm(A2 - F) / nF, "fro, oversamp=%s (bound of oversamp=%s)" % (os2, lower)))
+            AH2 = dense_fn(lambda y: sp.nufft_adjoint(y, coord, oshape=shape, oversamp=os2, width=w), [npts], shape)
+            out.append(("adjoint_exact", np.linalg.norm(AH2 - A2.conj().T) / max(np.linalg.norm(A2), 1e-300), "nufft_adjoint vs nufft^H (oversamp=%s, width=%s)" % (os2, w)))
+    # ... and the tabulated ratios once more after them: same operator as the first time (no dependence on the call history)
+    for os_, w in pairs[:2]:
+        coord = pts.copy()
+        A3 = dense_fn(lambda x: sp.nufft(x, coord, oversamp=os_, width=w), shape, [npts])
+        out.append((cls_name(os_, w), np.linalg.norm(A3 - F) / nF, "fro, repeated after other oversampling ratios"))
     # batch axis, complex64 precision, real input, operator-level checks at the defaults
     coord = pts.copy()
     xb = rs.randn(2, *shape) + 1j * rs.randn(2, *shape)
